@@ -19,7 +19,7 @@ use scrut::rules::registry::RuleRegistry;
 use scrut::testcase::TestCase;
 use std::sync::Arc;
 
-fn keep(prop: &str, fails: Vec<(String, String)>) -> Vec<(String, String)> {
+pub(crate) fn keep(prop: &str, fails: Vec<(String, String)>) -> Vec<(String, String)> {
     fails.into_iter().filter(|(c, _)| c.starts_with(prop)).collect()
 }
 
@@ -109,7 +109,7 @@ fn create_case(prop: &str, fmt: ParserType, escaper: Escaper, cmd: &str, out: &[
 
 /// `src` = format of the document the outcome was read from, `fmt` = format that is written (differs for `--convert`)
 #[allow(clippy::too_many_arguments)]
-fn create_case_from(prop: &str, src: ParserType, fmt: ParserType, escaper: Escaper, cmd: &str, out: &[u8], code: i32, tag: &str) -> CaseRec {
+pub(crate) fn create_case_from(prop: &str, src: ParserType, fmt: ParserType, escaper: Escaper, cmd: &str, out: &[u8], code: i32, tag: &str) -> CaseRec {
     let mut fails = vec![];
     let cram = fmt == ParserType::Cram;
     let outcome = create_outcome_from(src, fmt, &escaper, cmd, out, code);
@@ -211,9 +211,15 @@ fn unicode_other(c: char) -> bool {
     c.is_other()
 }
 
-const LINE_ALPHABET: [&[u8]; 20] = [
+pub(crate) const LINE_ALPHABET: [&[u8]; 20] = [
     "total\u{a0}(glob)".as_bytes(), "x\u{3000}(?)".as_bytes(), b"foo", b"foo (glob)", b"foo (?)", b"foo ()", b"[1]", b"$ x", b"> x", b"```", b"", b"  ", b"x\x01", b"a\\tb", b"a\\tb\x01", "é".as_bytes(), b"\xff", b"# c", b"foo (no-eol)", b"x\x01 (no-eol)",
 ];
+
+/// lines assembled from syntax fragments (PRE ++ MID ++ SUF): every combination of the first-character escape with the
+/// suffix logic (shared with the end-to-end streams of cli.rs)
+pub(crate) const PRE: [&[u8]; 7] = [b"$ ", b"> ", b"", b"[", b" ", b"$", b"```"];
+pub(crate) const MID: [&[u8]; 8] = [b"foo", b"x\x01", b"a\\b", "\u{e9}".as_bytes(), b"12", b"", b"\xff", b"\\"];
+pub(crate) const SUF: [&[u8]; 14] = ["\u{a0}(glob)".as_bytes(), "\u{2003}(equal)".as_bytes(), "\u{3000}(no-eol)".as_bytes(), "\u{1680}(*)".as_bytes(), b"", b" (no-eol)", b" (glob)", b" (escaped)", b" (equal)", b"]", b" ", b"\\", b" (no-eol) (escaped)", b"\t(*)"];
 
 /// `update`: a document whose tests are perturbed; oracle = C09 (rewritten blocks pass) and C10
 fn update_case(prop: &str, rng: &mut Rng, idx: u64) -> CaseRec {
@@ -546,9 +552,6 @@ pub fn run(ctx: &Ctx, prop: &str) {
         Some(create_case_from(prop, src, fmt, esc, cmd, &out, *rng.pick(&[0, 0, 2]), "create-random"))
     });
     // lines assembled from syntax fragments: every combination of the first-character escape with the suffix logic
-    const PRE: [&[u8]; 7] = [b"$ ", b"> ", b"", b"[", b" ", b"$", b"```"];
-    const MID: [&[u8]; 8] = [b"foo", b"x\x01", b"a\\b", "\u{e9}".as_bytes(), b"12", b"", b"\xff", b"\\"];
-    const SUF: [&[u8]; 14] = ["\u{a0}(glob)".as_bytes(), "\u{2003}(equal)".as_bytes(), "\u{3000}(no-eol)".as_bytes(), "\u{1680}(*)".as_bytes(), b"", b" (no-eol)", b" (glob)", b" (escaped)", b" (equal)", b"]", b" ", b"\\", b" (no-eol) (escaped)", b"\t(*)"];
     let nfrag = (PRE.len() * MID.len() * SUF.len()) as u64;
     ctx.run_stream("create-fragment-lines-exhaustive", nfrag * 2 * 2 * 2 * 2 * 2, true, |idx| {
         let mut r = idx;
@@ -624,7 +627,7 @@ pub fn replay(prop: &str, op: &str) -> bool {
 
 /// the text `Outcome::generate_testcase` returns (crate-private), obtained through the public
 /// `create` generator, which wraps exactly that text into a fence: `[# title\n\n]<fence line>\n<text><backticks>\n`
-fn c10_generated_text(o: &Outcome) -> Option<String> {
+pub(crate) fn c10_generated_text(o: &Outcome) -> Option<String> {
     let text = match guarded(|| MarkdownTestCaseGenerator::default().generate_testcases(&[o])) {
         Ok(Ok(t)) => t,
         _ => return None,
@@ -676,7 +679,7 @@ fn c10_gens(outcomes: &[&Outcome]) -> String {
 }
 
 /// (op, impl_out)
-fn c10_correspondence(doc: &str, outcomes: &[&Outcome]) -> (String, String) {
+pub(crate) fn c10_correspondence(doc: &str, outcomes: &[&Outcome]) -> (String, String) {
     let r = guarded(|| MarkdownUpdateGenerator::default().generate_update(doc, outcomes));
     (format!("upd {} {}", hex(doc.as_bytes()), c10_gens(outcomes)), c10_canon(&r))
 }
@@ -686,7 +689,7 @@ fn c10_correspondence(doc: &str, outcomes: &[&Outcome]) -> (String, String) {
 /// string and ends at the first line that starts with those backticks; the language is the info
 /// string up to a `{`, trimmed; everything unterminated extends to the end.
 #[derive(Debug, Clone, PartialEq)]
-enum RefSeg {
+pub(crate) enum RefSeg {
     Line(String),
     Front { body: Vec<String>, closed: bool },
     Foreign(Vec<String>),
@@ -703,7 +706,7 @@ fn c10_fence(l: &str) -> Option<(usize, String)> {
     Some((ticks, lang.to_string()))
 }
 
-fn c10_ref_segments(doc: &str) -> Vec<RefSeg> {
+pub(crate) fn c10_ref_segments(doc: &str) -> Vec<RefSeg> {
     let lines: Vec<&str> = doc.lines().collect();
     let mut segs = vec![];
     let mut content = false;
@@ -760,7 +763,7 @@ fn c10_ref_segments(doc: &str) -> Vec<RefSeg> {
 
 /// lines outside scrut blocks; front-matter delimiters as written (`normal_front`: every
 /// front-matter closed, which is what `update` writes)
-fn c10_outside(segs: &[RefSeg], normal_front: bool) -> Vec<String> {
+pub(crate) fn c10_outside(segs: &[RefSeg], normal_front: bool) -> Vec<String> {
     let mut v = vec![];
     for s in segs {
         match s {
